@@ -21,6 +21,7 @@ import (
 	"strconv"
 	"strings"
 	"sync"
+	"sync/atomic"
 	"time"
 
 	"github.com/protomaps/go-pmtiles/pmtiles"
@@ -59,14 +60,19 @@ func (o *realOrigin) ServeHTTP(w http.ResponseWriter, r *http.Request) {
 	http.ServeContent(w, r, key, time.Time{}, bytes.NewReader(data)) // honours If-Match and Range
 }
 
-func (o *realOrigin) up() {
-	ln, err := net.Listen("tcp", o.addr)
-	if err != nil {
-		return
+func (o *realOrigin) up() bool {
+	// the address was ours a moment ago; under load another process may hold the port for a while
+	for try := 0; try < 100; try++ {
+		ln, err := net.Listen("tcp", o.addr)
+		if err == nil {
+			o.ln = ln
+			o.srv = &http.Server{Handler: o}
+			go o.srv.Serve(ln)
+			return true
+		}
+		time.Sleep(20 * time.Millisecond)
 	}
-	o.ln = ln
-	o.srv = &http.Server{Handler: o}
-	go o.srv.Serve(ln)
+	return false
 }
 func (o *realOrigin) down() {
 	if o.srv != nil {
@@ -103,6 +109,7 @@ func SrvRealChild(args []string) {
 	srv.Start()
 	var out []string
 	nput := 0
+	stuck := 0
 	for _, op := range ops {
 		p := strings.Split(op, ":")
 		switch p[0] {
@@ -150,7 +157,11 @@ func SrvRealChild(args []string) {
 				case "down":
 					origin.down()
 				case "up":
-					origin.up()
+					if !origin.up() {
+						// the script cannot be carried out on this machine right now: inconclusive, not a verdict
+						fmt.Println("origin-restart-failed")
+						return
+					}
 				case "reset":
 					origin.mu.Lock()
 					origin.reset = true
@@ -159,6 +170,11 @@ func SrvRealChild(args []string) {
 			}
 		case "S":
 			path := strings.Join(p[1:], ":")
+			if stuck >= 2 {
+				// two requests already never completed: the rest of the script is not waited for
+				out = append(out, fmt.Sprintf("r%d=-2:-", len(out)))
+				continue
+			}
 			done := make(chan string, 1)
 			go func() {
 				st, _, body := srv.Get(context.Background(), path)
@@ -168,6 +184,7 @@ func SrvRealChild(args []string) {
 			case r := <-done:
 				out = append(out, fmt.Sprintf("r%d=%s", len(out), r))
 			case <-time.After(8 * time.Second):
+				stuck++
 				out = append(out, fmt.Sprintf("r%d=-2:-", len(out)))
 			}
 		}
@@ -176,6 +193,19 @@ func SrvRealChild(args []string) {
 }
 
 func runSrvReal(backend string, cacheMB int, ops []string) string {
+	if atomic.LoadInt32(&srvChildHangs) >= 6 {
+		n := 0
+		for _, op := range ops {
+			if strings.HasPrefix(op, "S:") {
+				n++
+			}
+		}
+		var out []string
+		for i := 0; i < n; i++ {
+			out = append(out, fmt.Sprintf("r%d=-2:-", i))
+		}
+		return strings.Join(out, " ") // not run: six earlier scripts of this run had requests that never completed
+	}
 	cmd := exec.Command(os.Args[0], "srvrealchild", backend, strconv.Itoa(cacheMB), strings.Join(ops, " "))
 	var out, errb bytes.Buffer
 	cmd.Stdout, cmd.Stderr = &out, &errb
@@ -197,7 +227,11 @@ func runSrvReal(backend string, cacheMB int, ops []string) string {
 			}
 			return "crash: " + strings.ReplaceAll(first, " ", "_")
 		}
-		return strings.TrimSpace(out.String())
+		res := strings.TrimSpace(out.String())
+		if strings.Contains(res, "=-2:") {
+			atomic.AddInt32(&srvChildHangs, 1)
+		}
+		return res
 	case <-time.After(60 * time.Second):
 		cmd.Process.Kill()
 		return "hang: process did not finish"
@@ -211,6 +245,9 @@ func judgeReal(ops []string, goOut string, faultsAllowed bool) string {
 	}
 	if strings.HasPrefix(goOut, "hang:") {
 		return "the script did not finish: " + goOut
+	}
+	if goOut == "origin-restart-failed" || goOut == "listen-failed" {
+		return "" // the loopback origin could not (re)bind its port: nothing was observed
 	}
 	var res scriptResult
 	res.hist = map[string][]*gversion{}
